@@ -1,4 +1,5 @@
 import Csverif.Proofs.EventRun
+import Csverif.Props.C06Durable
 import Csverif.Model.Spec.Restart
 import Csverif.Props.C01
 /-
